@@ -191,6 +191,13 @@ def chk_coords(case, acc, seed):
             dist[r, c] = math.sqrt(float((r - cr) ** 2 + (c - cc) ** 2))
     dmax = max(dist[tuple(p)] for p in pts)
     par = f'rows={"odd" if shape[0] % 2 else "even"},cols={"odd" if shape[1] % 2 else "even"}'
+    if case.get('after_other'):
+        # call history: another mask on the same array with the same centroid but a different extent was used just before
+        other = np.zeros(shape)
+        other[pts[:, 0].min():pts[:, 0].max() + 1, pts[:, 1].min():pts[:, 1].max() + 1] = 1
+        engine.reset_library_state()         # the history starts from a cold library
+        lentil.zernike_coordinates(other)
+        lentil.zernike(other, 4)
     try:
         rho, theta = lentil.zernike_coordinates(mask)
     except Exception as e:
@@ -249,6 +256,9 @@ def t_coords(arg, acc):
                 for val in (1, 0.3, 5):
                     acc.transitions += 1
                     chk_coords({'kind': 'coords', 'shape': shape, 'mask': name, 'pos': (r0, c0), 'val': val}, acc, arg['seed'])
+                if name in ('disc4', 'disc5', 'L'):
+                    acc.transitions += 1
+                    chk_coords({'kind': 'coords', 'shape': shape, 'mask': name, 'pos': (r0, c0), 'val': 1, 'after_other': True}, acc, arg['seed'])
 
 
 def t_one(arg, acc):
